@@ -1310,6 +1310,42 @@ class Evaluator:
             g = g.args[0]
         return self._branch(g, s, st, fr, lambda a: self.exec_block(body, a, fr), lambda b: self.exec_block(orelse, b, fr))
 
+    def s_Match(self, s, st, fr):
+        """match on values: `case A:` / `case A | B:` / `case None:` / `case _:` / `case x:` are the chain
+        `if subject == A: ... elif subject == A or subject == B: ... else: ...`; other patterns are not modelled."""
+        subj = self.eval_expr(s.subject, st, fr)
+
+        def test_of(pat):
+            if isinstance(pat, ast.MatchValue):
+                return App("==", (subj, self.eval_expr(pat.value, st, fr)), pat)
+            if isinstance(pat, ast.MatchSingleton):
+                return App("is", (subj, Const(pat.value)), pat)
+            if isinstance(pat, ast.MatchOr):
+                return App("or", tuple(test_of(p_) for p_ in pat.patterns), pat)
+            raise AnalysisError(f"match pattern {type(pat).__name__} not modelled (line {getattr(pat, 'lineno', '?')})")
+
+        def run(cases_, state):
+            if not cases_:
+                return state, []
+            c = cases_[0]
+            pat = c.pattern
+            irrefutable = isinstance(pat, ast.MatchAs) and pat.pattern is None
+            if irrefutable:
+                if pat.name is not None:
+                    state.env[pat.name] = subj
+                g = None
+            else:
+                g = test_of(pat)
+            if c.guard is not None:
+                gg = self.eval_expr(c.guard, state, fr)
+                g = gg if g is None else App("and", (g, gg), c)
+            if g is None:
+                return self.exec_block(c.body, state, fr)
+            if isinstance(g, Const):
+                return self.exec_block(c.body, state, fr) if g.v else run(cases_[1:], state)
+            return self._branch(g, c, state, fr, lambda a: self.exec_block(c.body, a, fr), lambda b: run(cases_[1:], b))
+        return run(list(s.cases), st)
+
     def _branch(self, g, s, st, fr, run_a, run_b):
         """Two-way split on the condition term g: run_a / run_b take a state and return (fall-through state, exits); results are merged."""
         base_e = len(st.effects)
